@@ -102,7 +102,12 @@ def generate(repo, emit, src, func_body):
             w = w.replace('LEAFTEST', norm(leaf_text) if leaf_text else '?')
         if 'TLSCB' in w:
             w = w.replace('TLSCB', cb or '?')
-        if got != norm(w):
+        alt = None
+        if 'Thread_Mark' in hdr:
+            # repaired form (fix f2b0c3a): only the current thread walks its own thread local storage; the mark phase
+            # of C01 reaches the TLS through current(Thread), for which both forms do the same
+            alt = '{struct Thread*t=self;if(self isnt Thread_Current()){return;}mark(t->tls,gc,f);}'
+        if got != norm(w) and not (alt and got == norm(alt)):
             nm = re.findall(r'GC_Mark_Item|GC_Recurse|GC_Mark_Stack|GC_Mark|[A-Z][a-z]+_Mark|mark', hdr)
             bad.append(nm[0] if nm else hdr)
     # --- collection trigger (GC_Set) and the mitems rule (GC_Sweep, GC_Rem)
@@ -115,7 +120,9 @@ def generate(repo, emit, src, func_body):
     rule = 'gc->mitems=gc->nitems+gc->nitems/2+1;'
     sweepb = norm(func_body(gc, r'void\s+GC_Sweep\s*\(\s*struct\s+GC\*\s*gc\s*\)\s*\{'))
     remb = norm(func_body(gc, r'static\s+void\s+GC_Rem\s*\(\s*var\s+self\s*,\s*var\s+key\s*\)\s*\{'))
-    if setb == want_set and rule in sweepb and rule in remb:
+    # repaired form (fix b4ae34a): no collection is started while a sweep is running (destructor that allocates)
+    want_set2 = want_set.replace(norm('if (gc->nitems > gc->mitems)'), norm('if (gc->freelist isnt NULL) { return; } if (gc->nitems > gc->mitems)'))
+    if setb in (want_set, want_set2) and rule in sweepb and rule in remb:
         emit('gc_threshold_shape_ok', 'Definition gc_threshold_shape_ok : bool := true.   (* GC_Set trigger nitems > mitems; mitems = n + n/2 + 1 *)')
     else:
         emit('gc_threshold_shape_ok', None)
